@@ -15,6 +15,9 @@ import (
 	"github.com/nsqio/nsq/internal/verifrt"
 )
 
+// verifBodyChunk > 0: the request body arrives in pieces of at most that many bytes per Read
+var verifBodyChunk int
+
 type verifBody struct {
 	verifStream
 	closed int
@@ -40,6 +43,16 @@ func verifReq(method, path, rawQuery string, body []byte, readErr bool, contentL
 	} else {
 		b.err = io.EOF
 	}
+	// net/http semantics of a declared length: the handler sees exactly that many bytes, and an
+	// upload that ends early (client went away) reads as io.ErrUnexpectedEOF
+	if contentLength >= 0 {
+		if int64(len(body)) > contentLength {
+			b.data = body[:contentLength]
+		} else if int64(len(body)) < contentLength && !readErr {
+			b.err = io.ErrUnexpectedEOF
+		}
+	}
+	b.chunk = verifBodyChunk
 	return &http.Request{
 		Method:        method,
 		URL:           &url.URL{Path: path, RawQuery: rawQuery},
@@ -106,8 +119,24 @@ func verifC10Pub() {
 			q += "&defer=" + strconv.FormatInt(deferMs, 10)
 		}
 	}
+	malformed := verifrt.Choice("malformed-query", 2) == 1
+	if malformed {
+		q += "&note=100%zz" // not a valid percent escape: the whole request is invalid
+	}
 	req := verifReq("POST", "/pub", q, body, readErr, cl)
 	status := verifStatus(s.doPUB(nil, req, nil))
+	if cl >= 0 {
+		if int64(len(body)) > cl {
+			body = body[:cl] // what the handler can see
+		} else if int64(len(body)) < cl {
+			readErr = true // the upload ended early
+		}
+	}
+	if malformed {
+		_, terr := n.GetExistingTopic(topic)
+		verifrt.Assert(status != 200 && terr != nil, "malformed-query-string-is-refused-and-creates-nothing")
+		verifrt.Reach("malformed-query-refused-400", status == 400)
+	}
 
 	nameOK := topicCase != 0 && verifValidNameRef([]byte(topic))
 	maxMs := int64(o.MaxReqTimeout / time.Millisecond)
@@ -115,7 +144,7 @@ func verifC10Pub() {
 	tooBig := cl > o.MaxMsgSize || int64(len(body)) > o.MaxMsgSize
 	empty := len(body) == 0
 	readFails := readErr && int64(len(body)) <= o.MaxMsgSize
-	valid := nameOK && deferOK && !tooBig && !empty && !readFails
+	valid := nameOK && deferOK && !tooBig && !empty && !readFails && !malformed
 	if valid {
 		verifrt.Assert(status == 200, "valid-pub-is-200")
 		t, _ := n.GetExistingTopic(topic)
@@ -132,7 +161,7 @@ func verifC10Pub() {
 		}
 		verifrt.Reach("pub-accepted-deferred", hasDefer && deferMs > 0)
 	} else {
-		okCode := (status == 400 && (!nameOK || !deferOK || empty)) || (status == 413 && tooBig) || (status == 500 && readErr) || (status == 400 && readErr)
+		okCode := (status == 400 && (!nameOK || !deferOK || empty || malformed)) || (status == 413 && tooBig) || (status == 500 && readErr) || (status == 400 && readErr)
 		verifrt.Assert(okCode, "pub-status-matches-an-invalid-aspect")
 		verifrt.Assert(status != 500 || readErr, "no-500-without-a-read-error")
 		verifrt.Assert(verifTopicCount(n, topic) == 0, "rejected-pub-enqueues-nothing")
@@ -140,7 +169,7 @@ func verifC10Pub() {
 		verifrt.Reach("defer-out-of-range", nameOK && !tooBig && !empty && !readErr && !deferOK)
 	}
 	// equivalence with TCP: same body bytes under the same limits
-	if nameOK && !readErr && (cl == int64(len(body)) || cl == -1) {
+	if nameOK && !readErr && !malformed && (cl == int64(len(body)) || cl == -1) {
 		n2 := verifShellNSQD(o)
 		wire := append(verifBE32(uint32(len(body))), body...)
 		c, _ := verifClient(n2, 9, wire)
@@ -181,7 +210,11 @@ func verifC10MpubText() {
 	if verifrt.Choice("chunked", 2) == 1 {
 		cl = -1
 	}
+	// the body arrives whole or one byte per read (the handler must not keep slices of a buffer
+	// that a later read reuses)
+	verifBodyChunk = verifrt.Choice("body-segments", 2)
 	req := verifReq("POST", "/mpub", "topic=t", body, false, cl)
+	verifBodyChunk = 0
 	status := verifStatus(s.doMPUB(nil, req, nil))
 	// reference split
 	var recs [][]byte
